@@ -114,6 +114,32 @@ new.append(entry("C04",
     not_decided=["functions listed under sweep_not_covered in the evidence (goroutines, real sockets, reflection on unknown types)"],
     explanation="Absence of run-time panics: every index, slice-bounds, nil-dereference, nil-map write, type-assertion, division, explicit-panic and library-precondition obligation of every source function of the five packages (zero-annotation sweep; thin requires only where callers establish them), with the reply bytes, their length and all arguments symbolic."))
 
+
+MSGTYPES = open(os.path.join(SPEC, "message_types.txt")).read().split()
+new.append(entry("C05",
+    functions=["messages.lemmaRoundTrip" + t for t in MSGTYPES] + ["messages.lemmaDecode" + t for t in MSGTYPES],
+    scope=[r"^messages\.lemma\w+#ensures:", r"^messages\.lemma\w+#requires:"],
+    pinned_file="pins_messages.json", pinned_labels=["contract"],
+    replay=[{"match": "messages.lemmaDecode", "driver": "messages_decode", "pkg": "messages", "case": "all"}],
+    assumptions=COMMON_ASSUME + ["bcd.* and time.* spec functions are opaque in the message-level lemmas; the facts used about them are the spec lemmas bcd.pack.inv, bcd.val2.inv, bcd.zero and time.fields.range, proved from the definitions on every run"],
+    not_decided=["the dispatchers messages.UnmarshalRequest / UnmarshalResponse (table of constructors returning `any`: dynamic type not statically known to the engine)",
+                 "date/time fields: the message-level lemma proves that the field is written in its BCD form at its offset and read back from the same offset (wire.date / wire.rdate ...); that reading back yields the same civil value in every time zone is the per-type statement of C13",
+                 "independence from non-field bytes is not stated as a separate lemma"],
+    explanation="For each of the 65 message structs T (32 requests, 31 replies, Event, EventV6_62) the lemma function lemmaRoundTrip<T>(v) = Unmarshal(Marshal(v)) is verified with the reflective codec executed on its real body: for every in-domain v decoding succeeds and every integer/boolean/PIN/HH:mm/IPv4/address:port/MAC/version field of the result equals the field of v; lemmaDecode<T>(b) shows that an arbitrary byte string is only accepted when it is 64 bytes long and carries T's protocol id and function code."))
+
+
+new.append(entry("C13",
+    functions=["types.ToDate", "types.ParseDate", "types.(*Date).UnmarshalUT0311L0x", "types.(Date).MarshalUT0311L0x", "types.(*DateTime).UnmarshalUT0311L0x", "types.(DateTime).MarshalUT0311L0x",
+               "types.(*SystemDate).UnmarshalUT0311L0x", "types.(*SystemTime).UnmarshalUT0311L0x", "types.lemmaRoundTripDate", "types.lemmaRoundTripDateTime"],
+    scope=[r"^types\."],
+    pinned_file="pins_types.json", pinned_labels=["contract"],
+    replay=[{"match": "lemmaRoundTripDateTime", "driver": "types_wire", "pkg": "types", "case": "zones"},
+            {"match": "#ensures:civil", "driver": "types_wire", "pkg": "types", "case": "midnight"}] + WIRE_REPLAY,
+    assumptions=["model of package time (spec/time.spec): a time.Time is (abs, ns, loc); the zone offset off(loc, u) is an uninterpreted function with |off| < 86400 - this is the quantifier over every IANA zone as the process-local zone; time.Date / ParseInLocation return abs = C - off(C - off(C)) (the library's algorithm) and, when the civil time exists in the zone, exactly the requested fields (documented guarantee); proleptic Gregorian calendar as an axiomatised bijection day number <-> (y, m, d)",
+                 "time.Format for the layouts 20060102, 20060102150405, 060102, 150405 yields the two-digit groups of the civil fields"],
+    not_decided=["Date.UnmarshalJSON / DateTime JSON forms (C14)", "the recombination of system date and time in GetStatus / Listen (sysdatetime closures): covered only through the SystemDate/SystemTime decoder contracts"],
+    explanation="Every date producer (ToDate, ParseDate, the wire decoders of Date, DateTime, SystemDate, SystemTime) is verified against a `civil` postcondition: whenever the calendar day (the civil date-time) exists in the process-local zone, the result has exactly the requested year, month, day (hour, minute, second); the wire encoders write exactly the civil fields; lemmaRoundTripDate / lemmaRoundTripDateTime compose the two from the contracts alone, for the zero values too. The zone offset function is uninterpreted, so the proof covers every zone."))
+
 ids = {e["id"] for e in new}
 out = [p for p in props if p["id"] not in ids] + new
 out.sort(key=lambda p: p["id"])
